@@ -178,4 +178,5 @@ def _get_all_ast_modules(
 def _get_all_internal_modules(
     modules: list[str], internal_module_prefix: str
 ) -> set[str]:
-    return {m for m in modules if m.startswith(internal_module_prefix)}
+    prefix = internal_module_prefix.rstrip(".")
+    return {m for m in modules if m == prefix or m.startswith(f"{prefix}.")}
